@@ -32,6 +32,7 @@ func init() {
 			"c10.float-exponent":       cdcnmon.ReproFloatExponent,
 			"c10.format-after-failure": cdcnmon.ReproFormatAfterFailure,
 			"c10.self-containing":      cdcnmon.ReproSelfContaining,
+			"c10.self-association":     cdcnmon.ReproSelfAssociationFormat,
 		},
 	})
 }
